@@ -241,6 +241,8 @@ class Run(object):
                 self.out.probe('over_1000_live_callbacks')
             if len(self.slots) >= 4000:
                 self.out.probe('over_4000_live_callbacks')
+            if len(self.slots) >= 20000:
+                self.out.probe('over_20000_live_callbacks')
             self.call_sample()
         elif name == 'bulkdrop':
             r = PRNG(op[1])
@@ -364,6 +366,11 @@ class C29(core.Check):
     def generate(self, rng, idx, tier):
         ops = []
         big = rng.chance(0.12)
+        huge = (idx % 197 == 13)       # a few runs keep tens of thousands alive: many growth steps of the pool
+        if huge:
+            ops.append(['bulk', 24000, rng.choice(SIGNAMES), 'inline'])
+            ops.append(['bulkdrop', rng.u64(), 0.5])
+            ops.append(['bulk', 14000, rng.choice(SIGNAMES), 'module'])
         for _ in range(rng.randint(5, 80)):
             name = rng.weighted([('create', 25), ('call', 20), ('drop', 18), ('bulk', 4), ('bulkdrop', 4),
                                  ('failcreate', 4), ('mmapfail', 2), ('collect', 6), ('gremlin', 2)])
